@@ -5,8 +5,9 @@
 //! the chaining constraints): an accepted deviation is a cell the prover may choose.
 //!
 //! Two transcripts: the extension-degree challenger (KoalaBear D4, width 16, recompose table on) and the base-field
-//! challenger in a quintic circuit (KoalaBear D1 rows, capacity chained inside the table).  Both: observe 8, sample,
-//! observe 5, sample, sample - three permutations, the last one triggered by a sample on an exhausted output buffer.
+//! challenger in a quintic circuit (KoalaBear D1 rows, capacity chained inside the table).  Both: observe n, sample,
+//! observe 5, sample, sample(s) - three permutations, the last one triggered by a sample on an exhausted output buffer;
+//! n = 8 (the first permutation absorbs a full block) and n = 3 (partial block: zero padding in the rate part).
 use std::panic::{AssertUnwindSafe, catch_unwind};
 
 use p3_batch_stark::ProverData;
@@ -118,7 +119,7 @@ fn sweep_table<EF: Field>(name: &'static str, d: usize, id: NpoTypeId, verdict: 
 }
 
 /// KoalaBear D4 extension challenger, recompose table on.
-pub fn sweep_ext() -> Result<Swept, String> {
+pub fn sweep_ext(first: usize, name: &'static str) -> Result<Swept, String> {
     let mut b = CircuitBuilder::<E4>::new();
     b.enable_poseidon2_perm::<KoalaBearD4Width16, _>(generate_poseidon2_trace::<E4, KoalaBearD4Width16>, default_koalabear_poseidon2_16());
     b.enable_recompose::<KB>(generate_recompose_trace::<KB, E4>);
@@ -126,7 +127,7 @@ pub fn sweep_ext() -> Result<Swept, String> {
     let mut native = DuplexChallenger::<KB, _, 16, 8>::new(default_koalabear_poseidon2_16());
     let mut samples_t = Vec::new();
     let mut samples_v: Vec<E4> = Vec::new();
-    for v in block(8, 1) {
+    for v in block(first, 1) {
         let t = b.define_const(E4::from(v));
         RecursiveChallenger::<KB, E4>::observe(&mut cc, &mut b, t);
         native.observe(v);
@@ -162,11 +163,11 @@ pub fn sweep_ext() -> Result<Swept, String> {
     runner.set_public_inputs(&samples_v).map_err(|e| format!("public inputs: {e:?}"))?;
     let honest = runner.run().map_err(|e| format!("run: {e:?}"))?;
     let j = judge!(prover, cpd, E4);
-    sweep_table::<E4>("kb-d4-ext", 4, NpoTypeId::poseidon2_perm(Poseidon2Config::KOALA_BEAR_D4_W16), &j, &honest)
+    sweep_table::<E4>(name, 4, NpoTypeId::poseidon2_perm(Poseidon2Config::KOALA_BEAR_D4_W16), &j, &honest)
 }
 
 /// KoalaBear base-field challenger rows (D1) in a quintic circuit.
-pub fn sweep_base() -> Result<Swept, String> {
+pub fn sweep_base(first: usize, name: &'static str) -> Result<Swept, String> {
     let lift = |v: KB| E5::new([v, KB::ZERO, KB::ZERO, KB::ZERO, KB::ZERO]);
     let mut b = CircuitBuilder::<E5>::new();
     b.enable_poseidon2_perm_base::<KoalaBearD1Width16, _>(generate_poseidon2_trace::<E5, KoalaBearD1Width16>, LiftedPerm(default_koalabear_poseidon2_16()));
@@ -174,7 +175,7 @@ pub fn sweep_base() -> Result<Swept, String> {
     let mut native = DuplexChallenger::<KB, _, 16, 8>::new(default_koalabear_poseidon2_16());
     let mut samples_t = Vec::new();
     let mut samples_v: Vec<E5> = Vec::new();
-    for v in block(8, 1) {
+    for v in block(first, 1) {
         let t = b.define_const(lift(v));
         RecursiveChallenger::<KB, E5>::observe(&mut cc, &mut b, t);
         native.observe(v);
@@ -211,5 +212,5 @@ pub fn sweep_base() -> Result<Swept, String> {
     runner.set_public_inputs(&samples_v).map_err(|e| format!("public inputs: {e:?}"))?;
     let honest = runner.run().map_err(|e| format!("run: {e:?}"))?;
     let j = judge!(prover, cpd, E5);
-    sweep_table::<E5>("kb-d1-base-in-quintic", 1, NpoTypeId::poseidon2_perm(Poseidon2Config::KOALA_BEAR_D1_W16), &j, &honest)
+    sweep_table::<E5>(name, 1, NpoTypeId::poseidon2_perm(Poseidon2Config::KOALA_BEAR_D1_W16), &j, &honest)
 }
